@@ -15,6 +15,7 @@ import CspuzModel.Proofs.C16Rooms
 import CspuzModel.Proofs.C16OneWay
 import CspuzModel.Proofs.C16PzprCells
 import CspuzModel.Proofs.C16Compass
+import CspuzModel.Proofs.C16RoomsFull
 namespace Cspuz.C16
 open Cspuz Cspuz.Ser Cspuz.C16F Cspuz.Codecs
 open Cspuz.Proofs.C16Url (NameOk)
@@ -193,13 +194,11 @@ theorem C16_pzpr_grids : statement_pzpr_grids :=
    fun h w g body hg hs => Proofs.C16PzprCells.pzpr_masyu h w g hg body hs,
    fun h w g body hg hs => Proofs.C16PzprCells.pzpr_yajilin h w g hg body hs⟩
 
-/-- **C16_pzpr, rooms puzzles – FULL statement** (not proved): the independent decoder, which computes the rooms from the
-border bitmaps by its own connected-components routine (`Pzpr.roomsOfBorders`), returns the partition in canonical
-form; for heyawake also the clues in the order of the rooms.  Missing: correctness of `Pzpr.roomsOfBorders` (that
-`rows·cols` relaxation rounds compute the components).  Proved instead: `C16_pzpr_rooms_partial` – the decoded BORDERS
-are exactly the borders of the partition (a border between two orthogonally adjacent cells iff they lie in different rooms),
-which determine the partition; the executable `roomsOfBorders` is compared with the problem on every URL of the
-correspondence run. -/
+/-- **C16_pzpr, rooms puzzles** (full strength): the independent decoder, which reads the border bitmaps and computes the
+rooms from them by ITS OWN connected-components routine (`Pzpr.roomsOfBorders`: label relaxation, nothing shared with the
+flood fill of cspuz), returns the partition in canonical form (rooms by least cell, cells row-major) – for every valid
+partition of every h×w board, h, w ≥ 1, given in any order; for heyawake also one number16 entry per room, which are the
+clues in the order of the canonical rooms (`canonValues`: every clue with its room). -/
 def statement_pzpr_rooms : Prop :=
   (∀ pc ∈ [Gen.litsCodec, Gen.norinoriCodec], ∀ h w rooms body, 1 ≤ h → 1 ≤ w → ValidPartition h w rooms →
       serProblem pc.comb (roomsVal rooms) h w = .ok body → Pzpr.decodeRooms h w body = some (canonRooms h w rooms)) ∧
@@ -209,48 +208,35 @@ def statement_pzpr_rooms : Prop :=
       ∃ cl, canonValues h w rooms (clues.map PyVal.int) = cl.map PyVal.int ∧
         Pzpr.decodeHeyawake h w body = some (canonRooms h w rooms, cl))
 
-/-- **C16_pzpr, rooms puzzles – proved part**: lits / norinori: the decoded borders are the borders of the partition;
-heyawake: the decoded borders are the borders of the partition and, reading one number16 entry per room, the numbers
-are the clues in the order of the canonical rooms. -/
-def statement_pzpr_rooms_partial : Prop :=
-  (∀ pc ∈ [Gen.litsCodec, Gen.norinoriCodec], ∀ h w rooms body, 1 ≤ h → 1 ≤ w → ValidPartition h w rooms →
-      serProblem pc.comb (roomsVal rooms) h w = .ok body → Pzpr.decodeBorders h w body = some (bordersOf h w rooms)) ∧
-  (∀ h w rooms (clues : List Int) body, 1 ≤ h → 1 ≤ w → ValidPartition h w rooms → clues.length = rooms.length →
-      (∀ c ∈ clues, ClueVal c) →
-      serProblem Gen.heyawakeCodec.comb (.tuple [roomsVal rooms, .list (clues.map PyVal.int)]) h w = .ok body →
-      ∃ cl, canonValues h w rooms (clues.map PyVal.int) = cl.map PyVal.int ∧
-        Pzpr.decodeHeyawakeN h w rooms.length body = some (bordersOf h w rooms, cl))
-
-theorem C16_pzpr_rooms_partial : statement_pzpr_rooms_partial := by
+theorem C16_pzpr_rooms : statement_pzpr_rooms := by
   refine ⟨?_, ?_⟩
   · intro pc hpc h w rooms body hh hw hv hs
     have hdec : pc = Gen.litsCodec ∨ pc = Gen.norinoriCodec := by simpa using hpc
-    have key : ∀ pc' : Gen.PuzzleCodec, pc'.comb = .rooms false false →
-        serProblem pc'.comb (roomsVal rooms) h w = .ok body → Pzpr.decodeBorders h w body = some (bordersOf h w rooms) := by
-      intro pc' hc hs'
-      obtain ⟨t, hser, _⟩ := rooms_roundtrip h w hh hw (borders_roundtrip h w) rooms hv false false
-      have hser' : ser (.rooms false false) ⟨h, w⟩ [roomsVal rooms] 0 = .ok (1, t) := by simpa [ser] using hser
-      rw [hc, Proofs.C16Rooms.serProblem_of_ser _ _ h w t hser'] at hs'
-      simp only [Outcome.ok.injEq] at hs'
-      subst hs'
-      have := Proofs.C16Bits.pzpr_rooms_borders h w hh hw rooms hv false false t hser' []
-      simp only [List.append_nil] at this
-      simp [Pzpr.decodeBorders, Pzpr.whole, this]
     rcases hdec with rfl | rfl
-    · exact key _ rfl hs
-    · exact key _ rfl hs
+    · exact Proofs.C16RoomsFull.pzpr_rooms_full _ rfl h w hh hw rooms hv body hs
+    · exact Proofs.C16RoomsFull.pzpr_rooms_full _ rfl h w hh hw rooms hv body hs
   · intro h w rooms clues body hh hw hv hl hcl hs
-    obtain ⟨body', h1, _, cl, hcv, hpz⟩ := Proofs.C16Rooms.heyawake_body h w hh hw rooms hv clues hl hcl
-    have : body = body' := by
-      have := hs.symm.trans h1
-      simpa using this
-    subst this
-    exact ⟨cl, hcv, hpz⟩
+    exact Proofs.C16RoomsFull.pzpr_heyawake_full h w hh hw rooms hv clues hl hcl body hs
+
+/-- **the borders determine the partition**: (1) the independent components routine applied to the borders of a valid
+partition returns the partition in canonical form (used above, and what turns the border statements for aquarium and
+star battle below into statements about the partition); (2) a grid of block ids that labels the rooms of a partition
+(any injective labelling – star battle's input format) has exactly the borders of that partition. -/
+def statement_pzpr_partition : Prop :=
+  (∀ (h w : Nat) (rooms : List (List (Nat × Nat))), 1 ≤ h → 1 ≤ w → ValidPartition h w rooms →
+      Pzpr.roomsOfBorders h w (bordersOf h w rooms) = canonRooms h w rooms) ∧
+  (∀ (h w : Nat) (rooms : List (List (Nat × Nat))) (bid : List (List Int)),
+      (∀ y x y' x', y < h → x < w → y' < h → x' < w →
+        ((bid.getD y []).getD x 0 = (bid.getD y' []).getD x' 0 ↔ roomIdx rooms (y, x) = roomIdx rooms (y', x'))) →
+      bordersOfIds h w bid = bordersOf h w rooms)
+
+theorem C16_pzpr_partition : statement_pzpr_partition :=
+  ⟨fun h w rooms hh hw hv => Proofs.C16Components.roomsOfBorders_correct h w hh hw rooms hv,
+   fun h w rooms bid hid => Proofs.C16RoomsFull.bordersOfIds_of_partition h w rooms bid hid⟩
 
 /-- **C16_pzpr_star_battle** (`problem_to_pzv_url(n, k, block_ids)`): frame `http://pzv.jp/p.html?starbattle/n/n/<body>`, body
 `k/<borders>`; the independent decoder reads the star count `k` and the borders of the block-id grid (a border
-iff the ids differ).  (That the partition computed from those borders is the partition of the ids – for connected
-blocks – is again the unproved `roomsOfBorders` step.) -/
+iff the ids differ; with `C16_pzpr_partition`: the partition whose rooms the ids label). -/
 def statement_pzpr_star_battle : Prop :=
   ∀ (n k : Nat) (bid : List (List Int)), (bid.length = n ∧ ∀ r ∈ bid, r.length = n) → DecimalOk n →
     ∃ body, starBattleProblemToPzvUrl n (k : Int) bid = .ok (urlFrame pzvPrefix (strOfString "starbattle") n n body) ∧
